@@ -524,19 +524,12 @@ theorem c10_reject_class (env : Env) (hwf : WF env = true) (s : Spec) (t : V) (e
 
 /-! ### Check -/
 
-/-- every condition given to the Check is met by subject `x` -/
-def allHold (env : Env) (o : CheckObj) (x : V) : Bool :=
-  (o.types.isEmpty || o.types.contains x.cls) &&
-  (o.vals.isEmpty || pyIn x o.vals) &&
-  o.validators.all (fun f => validatorCond f x == .holds) &&
-  (o.instanceOf.isEmpty || o.instanceOf.any (fun c => isInst env.cls x c))
-
 /-- Check enforces type (exact) / equal_to, one_of (`in`) / validate / instance_of
     (isinstance): without a default it passes — returning the *target* — exactly when every
     given condition holds, and raises CheckError otherwise, after running every validator. -/
 theorem c10_check (env : Env) (hwf : WF env = true) (o : CheckObj) (x t0 : V) (hd : o.default = none) :
     checkOn env o x t0 =
-      ((if allHold env o x then .ok t0 else .error (raiseAt env "Check.glomit" 1)),
+      ((if allHold env.cls o x then .ok t0 else .error (raiseAt env "Check.glomit" 1)),
        o.validators.flatMap fnLog) ∧
     env.exc.isSub (raiseAt env "Check.glomit" 1).cls "CheckError" = true := by
   have hw := WF.facts hwf
@@ -557,17 +550,36 @@ theorem c10_check (env : Env) (hwf : WF env = true) (o : CheckObj) (x t0 : V) (h
     simp only [Bool.and_eq_true] at this
     exact this.2
 
-/-- with a default: the conditions are tried in the order type, one_of/equal_to, validators,
-    instance_of; the first unmet one ends the Check with `arg_val(default)` (evaluated against
-    the subject) — except that a validator returning False yields the default object *as is*,
-    and a validator that raises never yields the default: it is remembered and, unless a later
-    condition returns the default, ends in CheckError (`checkWithDefault`, DESIGN §6.4). -/
+/-- **Check honours its default the same way for every condition**: with `default=d` the
+    conditions are tried in the order type, one_of / equal_to, validators (in order),
+    instance_of; the first one that is not met — a type that differs, a value not among
+    `one_of`, a validator that returns `False` *or raises*, a failed isinstance — ends the Check
+    with `arg_val(d)` evaluated against the subject, and nothing after it runs; if all are met the
+    *target* is returned.  (`Rel`: same value / same class of error and the same validators ran.) -/
 theorem c10_check_default (env : Env) (hwf : WF env = true) (o : CheckObj) (x t0 : V) (d : Arg)
     (hd : o.default = some d) :
-    Rel env (checkOn env o x t0) (checkWithDefault d x t0 (checkConds env.cls o x) false) := by
+    Rel env (checkOn env o x t0) (checkWithDefault d x t0 (checkConds env.cls o x)) ∧
+    (checkOn env o x t0).1 = (if allHold env.cls o x then .ok t0 else argVal d x) := by
   have h := checkOn_rel (WF.facts hwf) o x t0
   rw [hd] at h
-  exact h
+  exact ⟨h, checkOn_default_eq (WF.facts hwf) o x t0 d hd⟩
+
+/-- **The whole Check**, constructor and `spec=` subject included: `Check(spec, **kw)` that
+    Python can construct reads its subject with the T expression (a failing access stays a
+    PathAccessError), decides the subject as `c10_check` / `c10_check_default` say, and returns the
+    *original* target on success. -/
+theorem c10_check_whole (env : Env) (a : CheckArgs) (o : CheckObj) (t : V) (ho : checkInit a = .ok o) :
+    eval env (.check a) t =
+      (match o.spec with
+       | none => checkOn env o t t
+       | some e =>
+         match tGet e t with
+         | some x => checkOn env o x t
+         | none => (.error pae, [])) := by
+  simp only [eval, ho, checkGlomit]
+  cases o.spec with
+  | none => rfl
+  | some e => simp only [tRes]; cases tGet e t <;> rfl
 
 /-! ### non-vacuity: concrete inputs meet every hypothesis -/
 
@@ -623,13 +635,20 @@ theorem c10_flatten_dropped_default_counterexample :
 example : ctorErr (.or [] none) = some ⟨"ValueError"⟩ := by decide
 example : eval genEnv (.or ([] ++ [.mtype]) none) (.int 1) ≠
     eval genEnv (.or [.or [] none, .mtype] none) (.int 1) := by decide
--- Check: a validator returning False yields the raw default; one that raises does not
+-- Check: every failing condition yields the EVALUATED default — a validator returning False, one
+-- that raises, a type that differs
 example : (eval genEnv (.check { validate := some (.one (some 0, "never")), default := some (.t [.str "a"]) })
-    (.dict [(.str "a", .int 1)])).1 = .ok (.obj "rawT") := by decide
-example : (eval genEnv (.check { type_ := some (.one "int"), default := some (.t [.str "a"]) })
     (.dict [(.str "a", .int 1)])).1 = .ok (.int 1) := by decide
 example : (eval genEnv (.check { validate := some (.one (some 0, "raises_value")), default := some (.const (.int 7)) })
-    (.int 3)).1 = .error ⟨"CheckError"⟩ := by decide
+    (.int 3)) = (.ok (.int 7), [0]) := by decide
+-- the validator after the failing one does not run
+example : (eval genEnv (.check { validate := some (.many [(some 0, "raises_value"), (some 1, "always")]),
+    default := some (.const (.int 7)) }) (.int 3)) = (.ok (.int 7), [0]) := by decide
+example : (eval genEnv (.check { type_ := some (.one "int"), default := some (.t [.str "a"]) })
+    (.dict [(.str "a", .int 1)])).1 = .ok (.int 1) := by decide
+-- without a default a raising validator is a CheckError
+example : (eval genEnv (.check { validate := some (.one (some 0, "raises_value")) }) (.int 3)).1
+    = .error ⟨"CheckError"⟩ := by decide
 example : (eval genEnv (.check { type_ := some (.one "int") }) (.bool true)).1 = .error ⟨"CheckError"⟩ := by
   decide
 example : (eval genEnv (.check { instanceOf := some (.one "int") }) (.bool true)).1 = .ok (.bool true) := by
